@@ -117,7 +117,7 @@ def main(argv=None):
     # ---- violations: refuted obligations and failed bounded checks
     violations = []
     known_lines = []
-    os.makedirs(os.path.join(VERIF, "replays", prop), exist_ok=True)
+    os.makedirs(os.path.join(os.environ.get("PDV_REPLAY_DIR", os.path.join(VERIF, "replays")), prop), exist_ok=True)
     for o in refuted:
         kf = runner.match_known(prop, o["name"], findings)
         if kf:
@@ -192,7 +192,7 @@ def main(argv=None):
 
 def _write_replay(prop, o, rep):
     h = hashlib.sha256(o["name"].encode()).hexdigest()[:12]
-    path = os.path.join(VERIF, "replays", prop, f"{h}.json")
+    path = os.path.join(os.environ.get("PDV_REPLAY_DIR", os.path.join(VERIF, "replays")), prop, f"{h}.json")
     doc = {"property": prop, "obligation": o["name"], "status": o["status"], "solver": o.get("solver"),
            "model": o.get("model"), "smt2": o.get("smt2"), "info": o.get("info"), "replay_input": o.get("replay"),
            "native_result": rep}
